@@ -20,6 +20,8 @@ TraceStep ==
     /\ \/ ev.op = "reset" /\ a' = <<>> /\ b' = <<>> /\ bl' = FALSE /\ it' = NIL
        \/ ev.op = "insert" /\ OpInsert(ev.args[1])
        \/ ev.op = "remove" /\ OpRemove(ev.args[1])
+       \/ ev.op = "remove_own" /\ OpRemoveOwn(ev.args[1])
+       \/ ev.op = "fill" /\ OpFill(ev.args[1], ev.args[2], ev.args[3])
        \/ ev.op = "done" /\ OpDone
        \/ ev.op = "find" /\ OpFind(ev.args[1])
        \/ ev.op = "contains" /\ OpContains(ev.args[1])
